@@ -130,8 +130,9 @@ def base_env(hook):
 def run_cmd(cmd, env, cwd, log, timeout, mem_gb):
     def pre():
         os.setsid()
-        lim = mem_gb * (1 << 30)
-        resource.setrlimit(resource.RLIMIT_AS, (lim, lim))
+        if mem_gb > 0:
+            lim = mem_gb * (1 << 30)
+            resource.setrlimit(resource.RLIMIT_AS, (lim, lim))
     t0 = time.time()
     with open(log, "ab") as lf:
         lf.write(("\n$ " + " ".join(cmd) + "\n").encode())
@@ -387,8 +388,9 @@ def playback_tests(res, logdir):
         log = os.path.join(logdir, f"{job.mod}-{job.fn}.playback.log")
         if os.path.exists(log):
             os.remove(log)
+        # no address-space limit here: with --concrete-playback kani-driver itself has to hold CBMC's whole trace
         run_cmd(kani_cmd(job, slot, None, playback=True), base_env(job.hook), HARNESS, log,
-                job.timeout * 2 + 300, job.mem_gb)
+                job.timeout * 2 + 300, 0)
     finally:
         release_slot(fd)
     return extract_playback_tests(open(log, errors="replace").read()), log
